@@ -16,14 +16,18 @@
     ([C06_every_cut_of_a_record_is_visible]): reading the non-empty proper prefix never yields a
     record that is clean and without findings.  The header case rests on two lemmas: for any
     input, a successful header parse that leaves input unread has seen an empty line; a proper
-    prefix of the serialisation of well-formed fields contains none.  Not mechanised: the gzip
-    container (a cut member is an io.ErrUnexpectedEOF of the decompressor, an oracle).  Both
+    prefix of the serialisation of well-formed fields contains none.  (7) For per-record gzip
+    files, at the level of abstraction of the model (the decompressor is an oracle: a file is a
+    list of members, each given by what it decompresses to and whether it is whole): whole
+    members holding valid records are returned as those records at their compressed offsets
+    whatever follows, and a member that was cut anywhere is never returned as a clean record
+    ([C06_gzip_*]).  What the model cannot exhibit: the decompressor itself.  Both
     are evaluated on the implementation for every cut position by the executable statement
     (domain trunc; a cut that leaves fewer than 5 bytes is visible as end-of-file reported
     before the end of the data) and tied to the model by the sequential-reading correspondence
     (domain unm, including cut gzip members). *)
 Require Import Model.Bytes Model.FieldDef Gen.FieldTable Model.Fields Model.Policy Model.Stream Model.HeaderParse Model.Digest Model.Record.
-Require Import Proofs.HeaderProofs Proofs.RecordProofs Proofs.RoundTripProofs Proofs.CutHeaderProofs.
+Require Import Proofs.HeaderProofs Proofs.RecordProofs Proofs.RoundTripProofs Proofs.CutHeaderProofs Proofs.GzProofs.
 
 Theorem C06_complete_header_section_survives_any_remainder :
   forall uni_lower mime_dec p fs rest tl fnd,
@@ -84,3 +88,24 @@ Theorem C06_every_cut_of_a_record_is_visible :
                               http_req_ok http_resp_ok o (mkst c TEOF))).
 Proof. intros. eapply (every_cut_is_visible field_table required_fields); eassumption. Qed.
 Print Assumptions C06_every_cut_of_a_record_is_visible.
+
+Theorem C06_gzip_whole_members_before_the_cut_survive :
+  forall uni_lower uni_upper time_ok ip_ok uri_ok wid_ok mime_dec H b32 b64 http_req_ok http_resp_ok o rs rest k base,
+    (forall r cs, In (r, cs) rs -> exists bd pd,
+        valid_record field_table required_fields uni_lower uni_upper time_ok ip_ok uri_ok wid_ok mime_dec H b32 b64
+                     http_req_ok http_resp_ok o r bd pd) ->
+    read_all_gz field_table required_fields uni_lower uni_upper time_ok ip_ok uri_ok wid_ok mime_dec H b32 b64
+                http_req_ok http_resp_ok (length rs + k) o (members rs ++ rest) base
+    = expected_gz rs base
+      ++ read_all_gz field_table required_fields uni_lower uni_upper time_ok ip_ok uri_ok wid_ok mime_dec H b32 b64
+                     http_req_ok http_resp_ok k o rest (base + total_csize rs).
+Proof. intros. apply (whole_members_survive field_table required_fields); assumption. Qed.
+Print Assumptions C06_gzip_whole_members_before_the_cut_survive.
+
+Theorem C06_gzip_cut_member_is_never_a_clean_record :
+  forall uni_lower uni_upper time_ok ip_ok uri_ok wid_ok mime_dec H b32 b64 http_req_ok http_resp_ok o payload csize rest,
+    let '(_, u, _, _) := unmarshal_gz field_table required_fields uni_lower uni_upper time_ok ip_ok uri_ok wid_ok mime_dec H b32 b64
+                                      http_req_ok http_resp_ok o (GMember payload false csize :: rest) in
+    is_clean u = false.
+Proof. intros. apply (cut_member_is_not_clean field_table required_fields). Qed.
+Print Assumptions C06_gzip_cut_member_is_never_a_clean_record.
